@@ -70,6 +70,10 @@ def pyval_token(v) -> str:
         return "fn"
     if isinstance(v, str):
         return "s:" + core.hx(v)
+    import decimal
+    if isinstance(v, Fraction) or (isinstance(v, decimal.Decimal) and v.is_finite()):
+        f = Fraction(v)                      # other exact numeric types: the number they denote
+        return f"f:{f.numerator}:{f.denominator}"
     return "o"
 
 
